@@ -176,12 +176,15 @@ def mask_rule(ctx):
 
     half_notes = []
 
+    path_conds = []
+
     def ceil_half(e, n):
-        """True / False / None: is `e` ceil(n / 2) for every size n >= 1?  Decided by evaluating
-        the closed integer formula on n = 1..96 (any spelling: //, %, >>, math.ceil, divmod ...)."""
+        """True / False / None: is `e` ceil(n / 2) for every size n >= 1 that takes this path?
+        Decided by evaluating the closed integer formula on n = 1..96 (any spelling: //, %, >>,
+        math.ceil, divmod, a helper with one return per parity ...)."""
         if e is None:
             return None
-        v = int_formula_verdict(e, n, lambda k: (k + 1) // 2, lo=1)
+        v = int_formula_verdict(e, n, lambda k: (k + 1) // 2, lo=1, conds=path_conds)
         if v is True or v is None:
             return v
         half_notes.append("`%s` gives %s for %s = %d; ceil(%s / 2) is %d" % (norm_text(e), v[2], n, v[1], n, v[3]))
@@ -209,6 +212,7 @@ def mask_rule(ctx):
     fi = _fn(p, TU, "create_mid_split_binary_mask")
     n = fi.params()[0][0]
     for path in _single_return(fi):
+        path_conds[:] = [(et, pol) for et, raw, pol in path.conds]
         core, stores = strip_stores(path.ret)
         zero = norm_text(core).replace(" ", "").startswith("torch.zeros(%s)" % n)
         okst = False
@@ -227,6 +231,7 @@ def mask_rule(ctx):
     fi = _fn(p, TU, "create_random_binary_mask")
     n = fi.params()[0][0]
     for path in _single_return(fi):
+        path_conds[:] = [(et, pol) for et, raw, pol in path.conds]
         core, stores = strip_stores(path.ret)
         zero = norm_text(core).replace(" ", "").startswith("torch.zeros(%s)" % n)
         okst = False
